@@ -72,6 +72,21 @@ class KBW(KB):
         return self.ident % 2
 
 
+class KM(KB):
+    """Byte compression for some classes only: `to_bytes` is not implemented for every third one (the database decides per class)."""
+
+    def to_bytes(self):
+        if self.ident % 3 == 2:
+            raise NotImplementedError
+        return super().to_bytes()
+
+    def __eq__(self, other):
+        return isinstance(other, KM) and self.ident == other.ident
+
+    def __hash__(self):
+        return hash(("KM", self.ident))
+
+
 def out_of(f):
     try:
         r = f()
@@ -209,6 +224,17 @@ def searcher_worker(cfg):
         from comb_spec_searcher import CombinatorialSpecificationSearcher
         from comb_spec_searcher.exception import SpecificationNotFound
 
+        if cfg["seed"] % 3 == 0 and not cfg.get("gram"):
+            # union strategies built with non-default flags (not inferrable, still possibly empty)
+            import upword
+            from comb_spec_searcher import StrategyPack
+
+            def flag(st_):
+                return upword.Expand(st_.mode, inferrable=False) if type(st_) is upword.Expand else st_
+
+            pack = StrategyPack(initial_strats=[flag(x) for x in pack.initial_strats], inferral_strats=list(pack.inferral_strats),
+                                expansion_strats=[[flag(x) for x in ss] for ss in pack.expansion_strats], ver_strats=list(pack.ver_strats),
+                                name=pack.name, symmetries=list(pack.symmetries), iterative=pack.iterative)
         s = CombinatorialSpecificationSearcher(root, pack, ruledb=db, expand_verified=cfg["expand_verified"])
         specrun.quiet()
         st = random.getstate()
@@ -258,7 +284,7 @@ def run(tier, seed, factor=1):
     text, metas = [], []
     for i in range(n):
         empties, ops = rand_case(rnd)
-        for cls in (K, KB, KBW):
+        for cls in (K, KB, KBW, KM):
             lines, outs = run_history(res, cls, empties, ops)
             res.case((cls.__name__, tuple(sorted(empties)), tuple(ops)),
                      nontrivial=len(ops) >= 3 and len({o[1] for o in ops if o[0] in ("L", "S", "A")}) >= 2)
@@ -307,6 +333,6 @@ def replay(case):
         o = searcher_worker(inp)
         return {"signature": o["problems"][0][0], "input": inp, "detail": o["problems"][0][1]} if o["problems"] else None
     r = common.Result("C15")
-    cls = {"K": K, "KB": KB, "KBW": KBW, True: KB, False: K}[inp["compress"]]
+    cls = {"K": K, "KB": KB, "KBW": KBW, "KM": KM, True: KB, False: K}[inp["compress"]]
     run_history(r, cls, set(inp["empties"]), [tuple(o) for o in inp["ops"]])
     return r.failures[0] if r.failures else None
